@@ -246,6 +246,80 @@ def deductive_frame(res, agg):
             agg.vc(fn, "has-returning-path", struct_vc(False, "vacuity guard"), name)
 
 
+
+ACCESSORS = ("components", "scores", "components_amplitude", "components_phase", "scores_amplitude", "scores_phase", "explained_variance",
+             "explained_variance_ratio", "singular_values", "squared_covariance", "squared_covariance_fraction", "covariance_fraction_CD95",
+             "correlation_coefficients_X", "correlation_coefficients_Y", "cross_correlation_coefficients", "fraction_variance_X_explained_by_X",
+             "fraction_variance_Y_explained_by_Y", "fraction_variance_Y_explained_by_X", "homogeneous_patterns", "heterogeneous_patterns",
+             "damping_times", "periods", "eigenvalues", "decorrelation_time", "filter_patterns", "largest_locally_weighted_components")
+
+
+def _stored_state_updates(fn):
+    """syntactic frame of one accessor: in-place updates (augmented assignment, item or attribute assignment) of a name
+    that is bound, without a call in between, to self.data[...] / self.<attribute>: these write the model's stored
+    state.  Straight-line alias tracking in source order (a rebinding anywhere ends the alias)."""
+    import ast
+    import inspect
+    import textwrap
+    tree = ast.parse(textwrap.dedent(inspect.getsource(fn)))
+    alias, found = set(), []
+
+    def stored(e):
+        if isinstance(e, ast.Name):
+            return e.id in alias
+        if isinstance(e, ast.Subscript):
+            return stored(e.value) or (isinstance(e.value, ast.Attribute) and isinstance(e.value.value, ast.Name) and e.value.value.id == "self")
+        if isinstance(e, ast.Attribute):
+            return (isinstance(e.value, ast.Name) and e.value.id == "self") or stored(e.value)
+        return False
+
+    def visit(stmts):
+        for st in stmts:
+            if isinstance(st, ast.Assign):
+                for t in st.targets:
+                    if isinstance(t, ast.Name):
+                        (alias.add if stored(st.value) else alias.discard)(t.id)
+                    elif isinstance(t, (ast.Subscript, ast.Attribute)) and stored(t.value):
+                        found.append(f"line {st.lineno}: {ast.unparse(st)[:80]}")
+            elif isinstance(st, ast.AugAssign):
+                if stored(st.target):
+                    found.append(f"line {st.lineno}: {ast.unparse(st)[:80]}")
+            for f in ("body", "orelse", "finalbody"):
+                if hasattr(st, f) and isinstance(getattr(st, f), list):
+                    visit(getattr(st, f))
+            for h in getattr(st, "handlers", []):
+                visit(h.body)
+    visit(tree.body[0].body)
+    return found
+
+
+def deductive_accessor_frame(res, agg):
+    """every read-only accessor of every model class: no in-place update of stored state"""
+    import inspect
+    fn = "model accessors (frame)"
+    classes = []
+    for mod in (xeofs.single, xeofs.cross, xeofs.multi):
+        for nm in sorted(getattr(mod, "__all__", dir(mod))):
+            cls = getattr(mod, nm, None)
+            if inspect.isclass(cls) and cls not in classes:
+                classes.append(cls)
+    seen = {}
+    for cls in classes:
+        for acc in ACCESSORS:
+            f = getattr(cls, acc, None)
+            f = getattr(f, "__func__", f)
+            if not inspect.isfunction(f) or f in seen:
+                continue
+            try:
+                seen[f] = _stored_state_updates(f)
+            except (OSError, TypeError, SyntaxError) as e:
+                agg.vc(fn, "within-supported-subset", {"status": "undecided", "residue": f"{f.__qualname__}: {e}"}, f.__qualname__)
+                continue
+            agg.vc(fn, "a read-only accessor updates no stored state in place (augmented / item / attribute assignment through an alias of self.data[...] or self.<attr>)",
+                   struct_vc(not seen[f], "; ".join(seen[f])), f.__qualname__)
+    agg.vc(fn, "accessors under this obligation", struct_vc(len(seen) >= 20, f"{len(seen)} accessor functions"), "")
+
+
 def _datasets(rng):
     def mk(nn, nlat, nlon, t0, kind="da"):
         X = rng.standard_normal((nn, nlat * nlon)) * np.linspace(1, 3, nlat * nlon) + rng.standard_normal((nn, 1))
@@ -369,6 +443,14 @@ def eval_case(c):
                 m.components()
             elif op == "scores":
                 m.scores()
+            elif op == "accessor-variants":
+                # the other scalings of the same read-only accessors
+                import inspect
+                for acc, flag in ((m.components, False), (m.scores, True)):
+                    if "normalized" in inspect.signature(acc).parameters:
+                        acc(normalized=flag)
+                    else:
+                        acc()
             elif op == "compute":
                 m.compute()
             elif op == "serialize":
@@ -421,7 +503,7 @@ def eval_case(c):
 def bounded_cases(tier, seed):
     rng = np.random.default_rng(seed)
     alphabet = [("fit", "D1"), ("fit", "D2"), ("fit", "D3"), ("fit", "Dds"), ("fit", "Dlist"), ("transform", "D1"), ("transform", "D2"),
-                ("inverse_transform", None), ("components", None), ("scores", None), ("compute", None), ("serialize", None), ("rebuild", None),
+                ("inverse_transform", None), ("components", None), ("scores", None), ("accessor-variants", None), ("compute", None), ("serialize", None), ("rebuild", None),
                 ("rotator", 1), ("rotator", 2), ("bootstrapper", None)]
     cases = []
     fixed = [[("fit", "D1"), ("fit", "D2")], [("fit", "D1"), ("fit", "D3")], [("fit", "Dds"), ("fit", "D1")], [("fit", "D1"), ("fit", "Dlist")],
@@ -429,12 +511,13 @@ def bounded_cases(tier, seed):
              [("fit", "D1"), ("bootstrapper", None)], [("fit", "D1"), ("compute", None), ("transform", "D2"), ("compute", None)],
              [("fit", "D2"), ("serialize", None), ("inverse_transform", None), ("fit", "D1")],
              [("fit", "D1"), ("transform", "D1"), ("fit", "D2"), ("transform", "D2"), ("scores", None)],
+             [("fit", "D1"), ("accessor-variants", None), ("scores", None)],
              [("fit", "D1"), ("rebuild", None), ("compute", None)], [("fit", "D2"), ("compute", None), ("rebuild", None), ("compute", None), ("transform", "D2")]]
     for model in ("EOF", "ComplexEOF", "SparsePCA", "POP", "MCA", "CPCCA"):
         for ops in fixed:
             if model in ("MCA", "CPCCA", "POP", "SparsePCA") and any(a in ("Dds", "Dlist") for _, a in ops):
                 continue
-            cases.append(dict(model=model, ops=ops, keep=model in ("EOF", "MCA") or (model == "POP" and len(ops) >= 3 and ops[-1][0] in ("compute", "scores", "transform"))))
+            cases.append(dict(model=model, ops=ops, keep=model in ("EOF", "MCA") or ops[1][0] == "accessor-variants" or (model == "POP" and len(ops) >= 3 and ops[-1][0] in ("compute", "scores", "transform"))))
         nrand = 6 if tier == "quick" else 40
         for _ in range(nrand):
             L = int(rng.integers(2, 9))
@@ -494,6 +577,7 @@ def run(tier, seed):
     deductive_list_fit(res, agg)
     deductive_effects(res, agg)
     deductive_frame(res, agg)
+    deductive_accessor_frame(res, agg)
     agg.flush()
     run_bounded(res, tier, seed)
     return res
